@@ -283,7 +283,7 @@ pub fn run(ctx: &mut Ctx) {
     for (n, ok) in r2::selftest() {
         ctx.selftest(&n, ok);
     }
-    ctx.require(&["annex_kat", "honest_keys_equal", "step2_rejects_invalid_RA", "step3_rejects", "step4_rejects", "klen=1", "klen=16", "klen=200", "kind=OffCurve", "kind=Negated", "kind=OtherPoint", "kind=BitFlipHash", "kind=PermutedHash", "klen_needs_more_than_255_kdf_blocks", "honest_R_rerandomised_representation", "id_non_ascii_utf8", "key_from_gen_keypair", "key_with_jacobian_public_point", "degenerate_dA_shared_point_infinity_at_B", "degenerate_dB_shared_point_infinity_at_A", "coincident_dA_P_eq_xbarR_doubling_at_B", "coincident_dB_P_eq_xbarR_doubling_at_A", "crafted_valid_R_A"]);
+    ctx.require(&["annex_kat", "honest_keys_equal", "step2_rejects_invalid_RA", "step3_rejects", "step4_rejects", "klen=1", "klen=16", "klen=200", "kind=OffCurve", "kind=Negated", "kind=OtherPoint", "kind=BitFlipHash", "kind=PermutedHash", "klen_needs_more_than_255_kdf_blocks", "honest_R_rerandomised_representation", "id_non_ascii_utf8", "key_from_gen_keypair", "key_with_jacobian_public_point", "degenerate_dA_shared_point_infinity_at_B", "degenerate_dB_shared_point_infinity_at_A", "coincident_dA_P_eq_xbarR_doubling_at_B", "coincident_dB_P_eq_xbarR_doubling_at_A", "crafted_valid_R_A", "derived_key_all_zero"]);
     for s in 0..16 {
         ctx.required.push(format!("subset={:04b}", s));
     }
@@ -346,6 +346,43 @@ pub fn run(ctx: &mut Ctx) {
                 };
                 ctx.class(&format!("crafted:{}", name));
                 responder_with_point(ctx, &case, &pt, "crafted_valid_R_A");
+            }
+        }
+    }
+    // --- an honest run whose derived key happens to be all zero (klen = 1: one r_B in 256): GB/T 32918.3 has no
+    // "key must be non-zero" step, so the run must succeed like any other. r_B is searched with the reference.
+    {
+        let reps = ctx.n(1, 8);
+        let mut pz = ctx.prng("zero_key");
+        for rep in 0..reps {
+            let sub = pz.next();
+            if !ctx.mine(rep + 5) {
+                continue;
+            }
+            let mut q = Prng::new(sub, "zk");
+            let (da, db) = (rand_scalar(&mut q, &(&c.n - 1u32)), rand_scalar(&mut q, &(&c.n - 1u32)));
+            let (ida, idb) = (ascii_id(&mut q, 5), ascii_id(&mut q, 7));
+            let ra = rand_scalar(&mut q, &c.n);
+            let (pa, pb) = (r2::mul(&da, &r2::g()).unwrap(), r2::mul(&db, &r2::g()).unwrap());
+            let (za, zb) = (r2::za(ida.as_bytes(), &pa), r2::za(idb.as_bytes(), &pb));
+            let ra_pt = r2::mul(&ra, &r2::g()).unwrap();
+            let mut found = None;
+            for _ in 0..6000 {
+                let rb = rand_scalar(&mut q, &c.n);
+                let rb_pt = r2::mul(&rb, &r2::g()).unwrap();
+                if let Some(o) = r2::exchange(&db, &rb, &rb_pt, &pa, &ra_pt, &za, &zb, false, 1) {
+                    if o.key == [0u8] {
+                        found = Some(rb);
+                        break;
+                    }
+                }
+            }
+            let Some(rb) = found else { continue };
+            let case = Case { da, db, ida, idb, klen: 1, ra, rb, subset: 0, kind: Kind::OtherPoint };
+            ctx.class("derived_key_all_zero");
+            history(ctx, &case, &mut q);
+            if rep == 0 {
+                ctx.sample(json!({"derived_key_all_zero": wit(&case)}));
             }
         }
     }
